@@ -15,9 +15,9 @@ Proof.
 Qed.
 
 (** * accepted (outside F-C09c) *)
-Theorem accepts s : wf_sig s = true -> no_steal s = true -> exists o, sig_cli s = Ok o.
+Theorem accepts s : wf_sig s = true -> exists o, sig_cli s = Ok o.
 Proof.
-  intros W Ns. unfold sig_cli. rewrite (sig_ctx_closed_form s W Ns). eexists. reflexivity.
+  intros W. unfold sig_cli. rewrite (sig_ctx_closed_form s W). eexists. reflexivity.
 Qed.
 
 (** * all flag spellings distinct *)
@@ -128,12 +128,26 @@ Lemma underscore_refutes :
             flags_wellformed sig_underscore o = false.
 Proof. split; [reflexivity|]. eexists. split; [reflexivity|]. split; reflexivity. Qed.
 
-Lemma steal_refutes :
-  wf_sig sig_steal = true /\ all_have_core sig_steal = true /\ sig_cli sig_steal = Err EValue.
+(** F-C09c is repaired (d208a4d): (ab, _a) is accepted, ab gets "-b", _a keeps "-a" *)
+Lemma steal_fixed :
+  wf_sig sig_steal = true /\
+  exists o, sig_cli sig_steal = Ok o /\ all_spellings o = ["--ab"; "-a"; "-b"] /\
+            spec_ok sig_steal (Ok o) = true.
+Proof. split; [reflexivity|]. eexists. split; [reflexivity|]. split; reflexivity. Qed.
+
+(** historical: the model of the code before d208a4d (taken_names without the
+    dashed spellings) refused that signature *)
+Definition get_arguments_before_d208a4d (s : tsig) : list argspec :=
+  let pos := fill_implicit_positionals s in
+  reorder pos (build_args (s_deco s) pos (s_params s) (map p_name (s_params s))).
+
+Lemma steal_historical_refutes :
+  wf_sig sig_steal = true /\ all_have_core sig_steal = true /\
+  add_args empty_ctx (get_arguments_before_d208a4d sig_steal) = Err EValue.
 Proof. repeat split. Qed.
 
 Lemma inverse_refutes :
-  wf_sig sig_inverse = true /\ all_have_core sig_inverse = true /\ no_steal sig_inverse = true /\
+  wf_sig sig_inverse = true /\ all_have_core sig_inverse = true /\
   exists o, sig_cli sig_inverse = Ok o /\ flags_distinct o = false /\
             In "--no-a" (map fst (o_flags o)) /\ In "--no-a" (map fst (o_inverse o)).
 Proof.
